@@ -633,6 +633,13 @@ class World:
             if not documented and not raised:
                 self.fail("G", "accepts-undocumented", f"{key}={value!r}",
                           f"config accepted undocumented {op['style']} assignment {key}={value!r}")
+            if key != KEY:
+                # an undocumented key must not be readable back afterwards, whatever the assignment said
+                stored = _safe(lambda: cfg[key])
+                if not (isinstance(stored, str) and stored.startswith("ERR:")):
+                    self.fail("G", "undocumented-key-stored", f"{key}",
+                              f"after the {op['style']}-style assignment {key}={value!r} the configuration holds "
+                              f"{key}={stored!r}")
         return {"op": "set_config", "outcome": "raise:" + raised if raised else "ok", "sd": repr((key, value))}
 
     def op_refill(self, op):
@@ -833,11 +840,11 @@ class World:
             self.check_S(op, extra)
         if "G" in self.oracles or "S" in self.oracles:
             cur = _safe(lambda: formulae.config[KEY])
-            keys = sorted(vars(formulae.config))
-            if cur != self.mode or keys != [KEY]:
+            cur_attr = _safe(lambda: getattr(formulae.config, KEY))
+            if cur != self.mode or cur_attr != self.mode:
                 self.fail("G" if "G" in self.oracles else "S", "config-state", "config",
-                          f"formulae.config is {cur!r} with stored keys {keys} after step {self.step} "
-                          f"({op['op']}); the reference model says {self.mode!r}", extra)
+                          f"formulae.config reads {cur!r} (item style) / {cur_attr!r} (attribute style) after step "
+                          f"{self.step} ({op['op']}); the reference model says {self.mode!r}", extra)
         if "D" in self.oracles and not sweep:
             from .containers import check_D
 
